@@ -145,6 +145,27 @@ def Steady (M : Nat) : List Resp → Nat → Nat → Bool
     if r.k = 0 then r.err.isNone && z + 1 < M && Steady M rest (slen+1) (z+1)
     else (r.err.isNone || slen = 0) && Steady M rest slen 0
 
+/-- chunked source: every entry hands over `k ≥ 1` bytes, an error may sit only on the LAST entry
+    (final data arriving together with io.EOF / an error) -/
+def chunksOk : List Resp → Bool
+  | [] => true
+  | [x] => decide (1 ≤ x.k)
+  | x :: rest => decide (1 ≤ x.k) && x.err.isNone && chunksOk rest
+
+def sumK : List Resp → Nat
+  | [] => 0
+  | x :: rest => x.k + sumK rest
+
+/-- `SteadyChunks B script slen`: a chunked script (arbitrary chunk sizes `k ≥ 1`, an error only on
+    the last entry, together with its data) whose chunks cover the `slen` bytes left, for a stream that
+    fits the reader's first buffer (`slen ≤ B`, `B` = bufiox.defaultBufSize).  Then the room the reader
+    offers always covers everything left, every entry hands over its full `min k left`, and the last
+    entry — error or not — hands over all the rest.  (For longer streams the room may be smaller than
+    what is left when the last entry is read, and bytes arriving after the error would be lost: there
+    `Enough` / `chunks_enough` is the exact per-request condition.) -/
+def SteadyChunks (B : Nat) (script : List Resp) (slen : Nat) : Bool :=
+  decide (slen ≤ B) && chunksOk script && decide (slen ≤ sumK script)
+
 /-- liveness: a request that fits into the rest of the stream is served in full — no failure, no
     short ReadBinary (judged when the source's `Credit` says so, see below) -/
 def liveOk {ε : Type} (c : Cur) : ROp → RRes ε → Bool
